@@ -40,9 +40,27 @@ func (c *RC) configChecker() *FuncInfo {
 	if nw == nil {
 		return nil
 	}
+	var cands []*FuncInfo
 	for _, t := range c.calleesOfCluster(nw) {
 		sig := t.Obj.Type().(*types.Signature)
 		if t.RecvVar == nil && sig.Params().Len() == 1 && namedName(sig.Params().At(0).Type()) == "Config" && errorOnly(t) {
+			cands = append(cands, t)
+		}
+	}
+	// the outermost one: not called from another candidate (a validator split into parts)
+	for _, t := range cands {
+		inner := false
+		for _, u := range cands {
+			if u == t {
+				continue
+			}
+			for _, s := range c.A.FnSites[u] {
+				if s.Kind == "call" && s.Target == t {
+					inner = true
+				}
+			}
+		}
+		if !inner {
 			c.cfgChecker = t
 		}
 	}
